@@ -68,6 +68,8 @@ struct CallRec {
     admin_pending: bool,
     nested: bool,
     fault: Option<Fault>,
+    /// length of the world's event log when the call was issued (what had been executed by then)
+    log_len: usize,
 }
 
 struct ExecSt {
@@ -135,12 +137,13 @@ enum Decision {
 /// The one gate every coordinator call passes.
 fn on_call(ex: Arc<Exec>, who: String, broker: bool, what: String, target: Option<String>) -> Pin<Box<dyn Future<Output = Decision> + Send>> {
     Box::pin(async move {
+        let log_len = ex.sim.world.log_len();
         let fault = {
             let mut st = ex.st.lock().unwrap();
             let idx = st.idx;
             st.idx += 1;
             let fault = if st.window_open { st.plan.get(&idx).cloned() } else { None };
-            let rec = CallRec { who: who.clone(), broker, what, target: target.clone(), in_window: st.window_open, admin_pending: !st.admin.is_empty(), nested: st.nested, fault };
+            let rec = CallRec { who: who.clone(), broker, what, target: target.clone(), in_window: st.window_open, admin_pending: !st.admin.is_empty(), nested: st.nested, fault, log_len };
             st.calls.push(rec);
             fault
         };
@@ -503,6 +506,16 @@ async fn execute(script: &Script, plan: &Plan) -> Outcome {
                     } else if t == c.src_proxy {
                         if !dst_seen {
                             out.viol.push(("source-updated-before-destination-after-commit".into(), format!("round {} committed {} and sent SETCLUSTER to the source {} before the destination {}", c.who, c.task, c.src_proxy, c.dst_proxy)));
+                        } else {
+                            // "before" means the destination has *answered* (installed or already
+                            // newer) by the time the request to the source is issued - not merely
+                            // that its request was issued first
+                            let answered = events[..x.log_len.min(events.len())].iter().any(|e| {
+                                e.kind == "proxy" && e.at == c.dst_proxy && e.from == c.who && e.cmd.len() > 1 && e.cmd[0].eq_ignore_ascii_case(b"UMCTL") && e.cmd[1].eq_ignore_ascii_case(b"SETCLUSTER") && (e.reply == "+OK" || e.reply.contains("OLD_EPOCH"))
+                            });
+                            if !answered {
+                                out.viol.push(("source-request-issued-before-destination-answered-after-commit".into(), format!("round {} committed {} and issued SETCLUSTER to the source {} while the destination {} had not yet answered its SETCLUSTER", c.who, c.task, c.src_proxy, c.dst_proxy)));
+                            }
                         }
                         break;
                     }
